@@ -17,7 +17,7 @@ LEVEL = 'fault_enumeration'
 EVAL_KEY = 'decompositions'
 TIERS = {
     'quick': {'runs': 20000, 'opts': {}, 'chunk': 100},
-    'thorough': {'runs': 100000, 'opts': {}, 'chunk': 100, 'time_cap': 1200},
+    'thorough': {'runs': 800000, 'opts': {}, 'chunk': 200, 'time_cap': 1200},
 }
 RULE = ('seeded dense sources with known structure (low rank + noise near the per-bond allowance; super-diagonal spectra that '
         'saturate every bond; exact integer ties; tall unfoldings), each decomposed fault-free and then under every single '
